@@ -104,6 +104,7 @@ struct Run {
 			line += " =>";
 			Q q;
 			for (auto& o : h) {
+				UV_MARK("quire %u %u %u %s", nbits, es, capacity, line.c_str());
 				try { apply(q, o); }
 				catch (const operand_too_large_for_quire&) { line += " throw:too_large"; break; }
 				catch (const operand_too_small_for_quire&) { line += " throw:too_small"; break; }
